@@ -99,3 +99,45 @@ Example C16_example_ops :
 Proof. vm_compute. reflexivity. Qed.
 Goal True. idtac "ASSUMPTIONS-OF C16_example_ops". Abort.
 Print Assumptions C16_example_ops.
+
+(* THE ENGINE AND THE TABLES (every table that passes the check -- in particular both regenerated
+   ones --, every leaf oracle, every input, every rule).  A rule invocation, whatever it returns or
+   raises, is a FRAME STEP on the symbol tables: it ends in the scope it started in and, when the
+   current path names existing tables, the tables afterwards are the tables before with only the
+   children list of the current scope's table rewritten, and the path still names existing tables.
+   So the enter/exit/remove operations the engine issues are bracketed, a table that a failed
+   attempt created is removed from the very children list it was appended to, and no table outside
+   the current scope (other program units, ancestors, the ancestors' other children) is touched. *)
+From FV Require Import EngineRel ScopeFrame.
+Theorem C16_every_rule_invocation_is_a_frame_step :
+  forall (T : table) (L : item -> cls -> list cls -> leafres), table_ok T = true ->
+  forall fuel c s,
+    match new T L fuel c s with
+    | (Val _, s') => frame (sc s) (sc s')
+    | (Raise e, s') => is_exception e = true -> frame (sc s) (sc s')
+    end.
+Proof. exact engine_frame. Qed.
+Goal True. idtac "ASSUMPTIONS-OF C16_every_rule_invocation_is_a_frame_step". Abort.
+Print Assumptions C16_every_rule_invocation_is_a_frame_step.
+
+(* spelled out for the regenerated Fortran 2008 table, for a rule started inside program unit u:
+   same scope afterwards, the path still valid, and the (latest) table of every OTHER program unit m
+   exactly as before *)
+Theorem C16_rules_inside_a_unit_leave_other_units_alone :
+  forall (L : item -> cls -> list cls -> leafres) fuel c s s' o u q m,
+    new Table08.tbl L fuel c s = (Val o, s') ->
+    valid (sc s) -> cur (sc s) = u :: q -> N.eqb m u = false ->
+    cur (sc s') = cur (sc s) /\ valid (sc s') /\
+    last_named m (tops (sc s')) = last_named m (tops (sc s)).
+Proof. exact (fun L => rules_inside_a_unit Table08.tbl L table08_ok). Qed.
+Goal True. idtac "ASSUMPTIONS-OF C16_rules_inside_a_unit_leave_other_units_alone". Abort.
+Print Assumptions C16_rules_inside_a_unit_leave_other_units_alone.
+
+(* the hypotheses are met: inside MODULE 7 after PROGRAM-less start, the path [7] is valid *)
+Example C16_example_frame_hypotheses :
+  valid (enter_scope 7%N scopes0) /\ cur (enter_scope 7%N scopes0) = [7%N] /\
+  valid (enter_scope 9%N (enter_scope 7%N scopes0)) /\
+  frame (enter_scope 7%N scopes0) (enter_scope 7%N scopes0).
+Proof. split; [reflexivity|]. split; [reflexivity|]. split; [reflexivity|]. apply frame_refl. Qed.
+Goal True. idtac "ASSUMPTIONS-OF C16_example_frame_hypotheses". Abort.
+Print Assumptions C16_example_frame_hypotheses.
